@@ -270,6 +270,25 @@ def _length_sweep(tier, rng):
                 out.append(Case("%s %s" % (e, (hdr + tail).hex()), "", "lengths"))
     return out
 
+ALL_PARSE = sorted(set(["parse_tls_record_header", "parse_tls_plaintext", "parse_tls_encrypted", "parse_tls_raw_record", "tls_parser", "tls_parser_many",
+             "parse_tls_record_with_header"] + MSG_ENTRIES + HS_ENTRIES + HS_LEN_ENTRIES + EXT_SINGLE + EXT_LISTS + EXT_TAGGED + EXT_CONTENT +
+             KX_ENTRIES + ["ECParametersContent::parse"] + CT_ENTRIES + DTLS_ENTRIES + ["parse_dtls_record_with_header"]))
+PROPS["C01"] = dict(
+    families=[("record", 120), ("opaque", 60), ("toolarge", 40), ("handshake", 150), ("hsbody", 100), ("message", 60), ("multi", 60),
+              ("kx", 100), ("ct", 80), ("ext", 200), ("extwrong", 80), ("extlist", 80), ("dtls", 150), ("dtlsmulti", 50)],
+    corpus_entries=None, mutate_entries=None, mutate_budget=25, mutate_sources=400,
+    small_scope=sum((PROPS[q].get("small_scope", []) for q in ("C02", "C03", "C04", "C05", "C10", "C13", "C14", "C16") if q in PROPS), []),
+    expect_entries=[], thorough_mult=10, alloc_bound=(1024, 8192),
+    configs=["default", "nostd"], configs_quick=["default"],
+)
+PROPS["C18"] = dict(
+    families=[("record", 80), ("handshake", 120), ("hsbody", 60), ("message", 40), ("multi", 40), ("kx", 60), ("ct", 50),
+              ("ext", 150), ("extlist", 50), ("dtls", 100), ("dtlsmulti", 30)],
+    corpus_entries=None, mutate_entries=None, mutate_budget=15, mutate_sources=200,
+    small_scope=[(e, a, 1, 2) for (e, a, _f, _s) in sum((PROPS[q].get("small_scope", []) for q in ("C02", "C03", "C04", "C05", "C10", "C13", "C14", "C16") if q in PROPS), [])],
+    expect_entries=[], thorough_mult=10,
+    configs=["default", "nostd", "serialize"], configs_quick=["default", "nostd", "serialize"],
+)
 PROPS["C07"] = dict(
     families=[], corpus_entries=[], small_scope=[], thorough_mult=1,
 )
@@ -498,7 +517,7 @@ def _append_oracle(cases, outs):
 
 def direct_oracle(pid, case, impl_out):
     """property-level predicates on the implementation's output (independent of the model)"""
-    if pid in ("C03", "C04", "C06", "C01"):
+    if pid in ("C03", "C04", "C06", "C01") and not case.line.startswith(("defrag ", "@", "states ")):
         import vlib
         e, a, hx = vlib.split_line(case.line)
         b = bytes.fromhex(hx) if hx != "-" else b""
@@ -516,9 +535,10 @@ def direct_oracle(pid, case, impl_out):
                 # prefix of the payload, each within its own 24-bit length
                 r = _handshake_framing(b[5:5+L], "(ok @_+0 %s)" % m.group(2), exact=False)
                 if r: return r
-    if pid in ("C06", "C01") and not case.line.startswith(("defrag ", "@", "states ")):
+    if pid in ("C06", "C01") and not case.line.startswith(("defrag ", "@", "states ")) and impl_out and impl_out.startswith("(ok"):
         import vlib
         e, a, hx = vlib.split_line(case.line)
+        if hx != "-" and re.search(r"[^0-9a-fA-F]", hx): return None
         b = bytes.fromhex(hx) if hx != "-" else b""
         r = _provenance(b, impl_out)
         if r: return r
@@ -749,8 +769,76 @@ def _hello_cases(tier, seed, rng):
         out.append("@hello shnew %d %s %s %d %d %s" % (rng.randrange(65536), hxs(rl), rng.choice(["N", hxs(4)]), rng.choice(listed + [rng.randrange(65536)]), rng.randrange(256), rng.choice(["N", hxs(3)])))
     return [Case(l, "", "hello") for l in out]
 
+def _stress_cases(tier, rng):
+    """C01: inputs that maximise the number of allocated elements per input byte (smallest list elements, as many as
+    a length field allows), records at and beyond the cap, and lying lengths next to them"""
+    from vlib import Case
+    out = []
+    def add(e, b, args=()): out.append(Case(" ".join([e] + [str(a) for a in args] + [b.hex() if b else "-"]), "", "stress"))
+    def u16(n): return n.to_bytes(2, "big")
+    def u24(n): return n.to_bytes(3, "big")
+    for n in (16384, 16385, 16384 + 256, 16384 + 257, 18432, 18433, 40000, 65535):
+        for ct, unit in ((20, b"\x01"), (21, b"\x01\x00"), (22, b"\x00\x00\x00\x00"), (23, b"\xaa"), (24, b"\x01\x00\x00")):
+            body = (unit * (n // len(unit) + 1))[:n]
+            rec = bytes([ct, 3, 3]) + u16(n) + body
+            for e in ("parse_tls_plaintext", "parse_tls_raw_record", "parse_tls_encrypted", "tls_parser_many"):
+                add(e, rec)
+            add("parse_tls_record_with_header", body, (ct, 771, n))
+            add("parse_dtls_plaintext_record", bytes([ct, 254, 253]) + b"\x00" * 8 + u16(n) + body)
+            add("parse_dtls_record_with_header", body, (ct, 65277, 0, 1, n))
+    # many tiny records
+    add("tls_parser_many", (bytes([23, 3, 3, 0, 0]) * 8000))
+    add("tls_parser_many", (bytes([20, 3, 3, 0, 1, 1]) * 6000))
+    add("parse_dtls_plaintext_records", (bytes([20, 254, 253]) + b"\x00" * 8 + b"\x00\x01\x01") * 3000)
+    # extension lists and list-valued extensions with minimal elements
+    for n in (1000, 65532):
+        add("parse_tls_extensions", (b"\x12\x34\x00\x00" * (n // 4)))
+        add("parse_tls_client_hello_extensions", (b"\x00\x15\x00\x00" * (n // 4)))
+        add("parse_tls_server_hello_extensions", (b"\x0a\x0a\x00\x00" * (n // 4)))
+    L = 65530
+    for e in EXT_SINGLE:
+        add(e, b"\x00\x10" + u16(L + 2) + u16(L) + b"\x00" * L)                       # ALPN: 65530 empty names
+        add(e, b"\x00\x00" + u16(L + 2) + u16(L - 1) + (b"\x00\x00\x00" * (L // 3))[:L - 1])  # SNI: 3-byte entries
+        add(e, b"\x00\x0d" + u16(L + 2) + u16(L) + b"\x04\x03" * (L // 2))
+        add(e, b"\x00\x0a" + u16(L + 2) + u16(L) + b"\x00\x17" * (L // 2))
+        add(e, b"\x00\x2b" + u16(255) + b"\xfe" + b"\x03\x04" * 127)
+        add(e, b"\x00\x2f" + u16(L) + (b"\x00\x00\x00\x00" * (L // 4))[:L])           # OID filters
+        add(e, b"\x00\x12" + u16(L) + u16(L - 2) + b"\x00" * (L - 2))
+    add("parse_tls_extension_alpn_content", u16(L) + b"\x00" * L)
+    add("parse_ct_signed_certificate_timestamp_list", u16(L) + b"\x00\x00" * (L // 2))
+    sct = b"\x00\x2f" + b"\x00" + b"\x11" * 32 + b"\x00" * 8 + b"\x00\x00" + b"\x04\x03" + b"\x00\x00"
+    add("parse_ct_signed_certificate_timestamp_list", u16(len(sct) * 1300) + sct * 1300)
+    # handshake bodies: 32k cipher suites, 255 compression methods, certificate chain of empty certificates, CA list
+    R = b"\x00" * 32
+    ch = b"\x03\x03" + R + b"\x00" + u16(65534) + b"\x13\x01" * 32767 + b"\xff" + b"\x00" * 255
+    add("parse_tls_handshake_client_hello", ch)
+    add("parse_tls_message_handshake", b"\x01" + u24(len(ch)) + ch)
+    add("parse_dtls_message_handshake", b"\x01" + u24(len(ch) + 1) + b"\x00\x00" + u24(0) + u24(len(ch) + 1) + ch[:35] + b"\x00" + ch[35:])
+    chain = b"\x00\x00\x00" * 100000
+    add("parse_tls_handshake_msg_certificate", u24(len(chain)) + chain)
+    add("parse_tls_message_handshake", b"\x0b" + u24(len(chain) + 3) + u24(len(chain)) + chain)
+    cas = b"\x00\x00" * 32767
+    cr = b"\xff" + b"\x01" * 255 + u16(65534) + b"\x04\x03" * 32767 + u16(len(cas)) + cas
+    add("parse_tls_handshake_certificaterequest", cr)
+    add("parse_tls_message_handshake", b"\x0d" + u24(len(cr)) + cr)
+    # lying length fields with nothing behind them (a parser that pre-allocates from the field would show here)
+    for e, b in (("parse_tls_handshake_client_hello", b"\x03\x03" + R + b"\x00\xff\xfe"),
+                 ("parse_tls_message_handshake", b"\x0b\xff\xff\xff\xff\xff\xff"),
+                 ("parse_tls_message_handshake", b"\x01\x00\x00\x27\x03\x03" + R + b"\x00\xff\xfe"),
+                 ("parse_tls_extension", b"\x00\x10\xff\xff\xff\xfd"), ("parse_tls_extension", b"\x00\x0d\x00\x02\xff\xfe"),
+                 ("parse_tls_extension", b"\x00\x0a\xff\xff\xff\xfd"), ("parse_tls_extension", b"\x00\x2b\x00\x01\xff"),
+                 ("parse_ct_signed_certificate_timestamp_list", b"\xff\xff"), ("parse_tls_plaintext", b"\x16\x03\x03\x40\x00"),
+                 ("parse_tls_plaintext", b"\x16\x03\x03\x00\x04\x0b\xff\xff\xff"), ("parse_dh_params", b"\xff\xff"),
+                 ("parse_tls_handshake_msg_certificate", b"\xff\xff\xff"), ("parse_tls_handshake_certificaterequest", b"\xff"),
+                 ("parse_dtls_message_handshake", b"\x01\xff\xff\xff\x00\x00\x00\x00\x00\xff\xff\xff"),
+                 ("parse_dtls_plaintext_record", b"\x16\xfe\xfd" + b"\x00" * 8 + b"\xff\xff")):
+        add(e, b)
+    return out
+
 def extra_cases(pid, tier, seed, rng):
     if pid == "C15": return _hello_cases(tier, seed, rng)
+    if pid == "C18": return _nt_cases(tier, rng) + _cipher_cases(tier, rng) + _state_cells(tier, rng) + _defrag_histories(tier, seed, rng)[:1500]
+    if pid == "C01": return _stress_cases(tier, rng) + _defrag_histories(tier, seed, rng) + _length_sweep("quick", rng)
     if pid == "C09": return _ser_cases(tier, rng)
     if pid == "C05": return _ext_type_sweep(tier, rng)
     if pid == "C13": return _kx_sweeps(tier, rng)
